@@ -1988,7 +1988,9 @@ class Convention(abc.ABC, Generic[GridKind, Index]):
             # but could have identical byte patterns.
             # Checking for encoding dtype and falling back to values.dtype due to
             # xarray multifile dataset bug - https://github.com/pydata/xarray/issues/2436
-            hash_string(hash, data_array.encoding.get('dtype', data_array.values.dtype).name)
+            # The encoding may spell the type as a string or a numpy scalar type
+            dtype = numpy.dtype(data_array.encoding.get('dtype', data_array.values.dtype))
+            hash_string(hash, dtype.name)
 
             # Include the size and shape of the data.
             # 1D coordinate arrays are very different to 2D coordinate arrays,
